@@ -17,6 +17,14 @@ pub struct Oracle {
     /// every database name / key value that appeared in the case so far
     names: BTreeSet<String>,
     keys: BTreeSet<String>,
+    /// after a crash: databases whose collection `c1` has not been opened by any request yet
+    /// (`None` = no crash so far, `Some(set of databases already opened since)`)
+    reopened_since_crash: Option<BTreeSet<String>>,
+}
+
+/// methods whose default parameters address collection `c1` (their handler opens it)
+fn opens_c1(method: &str) -> bool {
+    (method.starts_with("doc.") || method.starts_with("collection.")) && !matches!(method, "collection.list" | "collection.create" | "collection.ensure" | "collection.delete")
 }
 
 const UNAUTHORIZED_JSON: &[u8] = br#"{"error":{"code":"unauthorized","message":"invalid or missing API key"}}"#;
@@ -57,7 +65,12 @@ impl Oracle {
             bound: BTreeMap::new(),
             names: BTreeSet::new(),
             keys: BTreeSet::new(),
+            reopened_since_crash: None,
         }
+    }
+
+    pub fn on_crash(&mut self) {
+        self.reopened_since_crash = Some(BTreeSet::new());
     }
 
     pub fn reset(&mut self, cfg: CfgLine) {
@@ -65,6 +78,7 @@ impl Oracle {
         self.keys = cfg.admin.iter().cloned().collect();
         self.cfg = cfg;
         self.bound.clear();
+        self.reopened_since_crash = None;
     }
 
     pub fn on_restart(&mut self) {}
@@ -160,7 +174,7 @@ impl Oracle {
                     format!("{:?} {}", resp.headers, vh_common::hex(&resp.body)),
                 );
             }
-            if !resp.writes.is_empty() || !resp.reads.is_empty() {
+            if resp.status == 401 && (!resp.writes.is_empty() || !resp.reads.is_empty()) {
                 fail("reject:touches-store", "a rejected request accessed storage", "no storage access".into(), footprint(resp));
             }
             return out;
@@ -213,8 +227,15 @@ impl Oracle {
         // ---- reads never write ----
         if self.is_read(r) && !resp.writes.is_empty() {
             let scope = if matches!(r.target, Target::Root) { "root" } else { "db" };
+            // the first request that opens a collection after a crash runs the recovery of that
+            // collection (intent replay + checkpoint): one call shape, whatever the method
+            let recovering = match (&r.target, &self.reopened_since_crash) {
+                (Target::Db { name, .. }, Some(done)) => opens_c1(method) && !done.contains(name),
+                _ => false,
+            };
+            let key = if recovering { "read-writes:cold-recovery".to_string() } else { format!("read-writes:{scope}:{method}") };
             fail(
-                &format!("read-writes:{scope}:{method}"),
+                &key,
                 "a method the service labels Read (cancellable) wrote to storage",
                 "empty mutation log".into(),
                 footprint(resp),
@@ -237,6 +258,13 @@ impl Oracle {
     pub fn observe(&mut self, r: &Req, resp: &ImplResp, w: &World) {
         if let Target::Db { name, .. } = &r.target {
             self.names.insert(name.clone());
+            if let (Some(done), Some(m)) = (self.reopened_since_crash.as_mut(), r.method())
+                && r.verb == "POST"
+                && opens_c1(m)
+                && resp.status == 200
+            {
+                done.insert(name.clone());
+            }
         }
         if let Some(t) = self.real_token(r, w) {
             if t.len() >= 4 {
